@@ -33,8 +33,9 @@ import (
 const maxTermDepth = 14
 
 type termCtx struct {
-	ff       *FuncFacts
-	progress map[*ssa.Phi]string // φ currently being unfolded -> placeholder
+	ff        *FuncFacts
+	progress  map[*ssa.Phi]string // φ currently being unfolded -> placeholder
+	allocBusy map[*ssa.Alloc]int
 }
 
 func (ff *FuncFacts) Term(v ssa.Value) string {
@@ -350,20 +351,31 @@ func (tc *termCtx) loadAlloc(a *ssa.Alloc, load ssa.Instruction, d int) string {
 	if len(stores) == 1 && len(fieldStores) == 0 {
 		return tc.term(stores[0].Val, d+1)
 	}
-	if len(stores) > 1 && load != nil {
-		// nearest store earlier in the same block
-		blk := load.Block()
-		var last *ssa.Store
-		for _, in := range blk.Instrs {
-			if in == load {
-				break
-			}
-			if s, ok := in.(*ssa.Store); ok && s.Addr == a {
-				last = s
-			}
+	if len(stores) > 1 && load != nil && len(fieldStores) == 0 {
+		// flow-sensitive: the stores that may reach this load
+		if tc.allocBusy == nil {
+			tc.allocBusy = map[*ssa.Alloc]int{}
 		}
-		if last != nil {
-			return tc.term(last.Val, d+1)
+		if tc.allocBusy[a] < 2 {
+			tc.allocBusy[a]++
+			vals, zero := reachingStores(a, load)
+			var alts []ssa.Value
+			for _, st := range vals {
+				alts = append(alts, st.Val)
+			}
+			ts := uniqTerms(tc, alts, d)
+			tc.allocBusy[a]--
+			if zero {
+				ts = append(ts, "zero")
+			}
+			if len(ts) == 1 {
+				return ts[0]
+			}
+			if len(ts) > 1 && len(ts) <= 4 {
+				return "φ(" + strings.Join(ts, "|") + ")"
+			}
+		} else {
+			return "↺"
 		}
 	}
 	if len(fieldStores) > 0 && len(stores) <= 1 {
@@ -536,4 +548,50 @@ func (tc *termCtx) arrayLiteral(a *ssa.Alloc, d int) (string, bool) {
 		}
 	}
 	return "[" + strings.Join(elems, ", ") + "]", true
+}
+
+// reachingStores returns the stores to cell a that may be the last one executed
+// before `load` (standard reaching definitions over the CFG); zero=true when the
+// load can be reached without any store (the zero value).
+func reachingStores(a *ssa.Alloc, load ssa.Instruction) (out []*ssa.Store, zero bool) {
+	lastStoreBefore := func(b *ssa.BasicBlock, limit ssa.Instruction) *ssa.Store {
+		var last *ssa.Store
+		for _, in := range b.Instrs {
+			if in == limit {
+				break
+			}
+			if s, ok := in.(*ssa.Store); ok && s.Addr == a {
+				last = s
+			}
+		}
+		return last
+	}
+	if s := lastStoreBefore(load.Block(), load); s != nil {
+		return []*ssa.Store{s}, false
+	}
+	seen := map[*ssa.BasicBlock]bool{}
+	found := map[*ssa.Store]bool{}
+	var walk func(b *ssa.BasicBlock)
+	walk = func(b *ssa.BasicBlock) {
+		if len(b.Preds) == 0 {
+			zero = true
+		}
+		for _, p := range b.Preds {
+			if seen[p] {
+				continue
+			}
+			seen[p] = true
+			if s := lastStoreBefore(p, nil); s != nil {
+				if !found[s] {
+					found[s] = true
+					out = append(out, s)
+				}
+				continue
+			}
+			walk(p)
+		}
+	}
+	walk(load.Block())
+	sort.Slice(out, func(i, j int) bool { return out[i].Pos() < out[j].Pos() })
+	return
 }
